@@ -529,6 +529,8 @@ def batch(task):
     lib.get()
     seed, lo, hi = task["seed"], task["lo"], task["hi"]
     agg = new_agg()
+    if runner.past_deadline():
+        return agg  # the tier's soft time budget is used up: no further runs are started
     nsweep = 4 if task.get("tier") == "thorough" else 1
     done = 0
     for run in range(lo, hi):
